@@ -250,25 +250,33 @@ func (sessScenario) Gen(r *Rng, tier string, opts map[string]string) interface{}
 		p.Crash = &crashPlan{Kind: []string{"close_server", "close_both"}[r.Intn(2)], AtStep: int64(r.Intn(300)), Twice: r.Chance(1, 3), Flood: 1024 + r.Pick(1, 2, 40)}
 		return p
 	}
-	if prop == "C11" && r.Chance(1, 15) {
+	if (prop == "C11" || prop == "C07") && r.Chance(1, 15) {
 		// the connection write timeout really fires: messages that do not fit any slice class go through the socket,
 		// the socket buffer holds a few bytes and the peer's process is off the CPU for much longer than
-		// ConnectionWriteTimeout. Flush must come back with an error, not stay blocked.
+		// ConnectionWriteTimeout. Flush must come back with an error, not stay blocked (C11); what the send loop still
+		// holds of an abandoned message must not be touched by the messages that follow on this or another stream (C07:
+		// 2-3 streams whose writers time out in turn and carry on).
 		p.Cfg.Slices = [][2]uint32{{64, 50}, {256, 50}}
 		p.Cfg.SockBuf = r.Pick(16, 64)
 		p.Cfg.WriteTimeoutMs = r.Pick(50, 200)
 		p.Cfg.Spurious = 0
 		p.Faulty = true
 		p.Sim.PointMean = 0
-		var sp streamPlan
-		total := 0
-		for j := 0; j < 2+r.Intn(3); j++ {
-			n := 300 + r.Intn(600)
-			sp.C2S.W = append(sp.C2S.W, wOp{K: "msg", Pieces: []piece{{K: "rsv", N: n}}})
-			total += n
+		nst := 1
+		if prop == "C07" {
+			nst = 2 + r.Intn(2)
 		}
-		sp.C2S.R = []rOp{{K: "deadline", N: 30000}, {K: "rb", N: total}, {K: "release"}}
-		p.Streams = append(p.Streams, sp)
+		for i := 0; i < nst; i++ {
+			var sp streamPlan
+			total := 0
+			for j := 0; j < 2+r.Intn(3); j++ {
+				n := 300 + r.Intn(600)
+				sp.C2S.W = append(sp.C2S.W, wOp{K: "msg", Pieces: []piece{{K: "rsv", N: n}}})
+				total += n
+			}
+			sp.C2S.R = []rOp{{K: "deadline", N: 30000}, {K: "rb", N: total}, {K: "release"}}
+			p.Streams = append(p.Streams, sp)
+		}
 		p.Chaos = []nbOp{{K: "sleep", N: r.Pick(0, 1)}, {K: "stall", N: r.Pick(1000, 3000), Side: 1}}
 		return p
 	}
@@ -2097,6 +2105,10 @@ func (c *streamCb) OnData(reader BufferReader) {
 	es.inOnData++
 	es.cbInvocations++
 	defer func() { es.inOnData-- }()
+	// the library's callback goroutine: Session.Close waits for it before it releases the session's memory, so a
+	// memory fault in this goroutine is not an instance of the recorded teardown race between the event loop and
+	// user goroutines (finding F-TEARDOWN excludes it)
+	simrt.SetTag("panic_in", "callback_goroutine")
 	if es.inOnData > 1 && w.on("C20") {
 		w.fail("C20.reentrant", "stream %d: OnData running %d times at once", ss.idx, es.inOnData)
 		return
